@@ -16,7 +16,8 @@
    rejection final is modelled in H1/Gate.v (section 8). *)
 From AV Require Import Lib.Base Gen.Consts H1.Chunked H1.ChunkedSpec H1.ChunkedProofs H1.PayloadDec
   H1.PayloadDecProofs H1.Framing H1.FramingProofs H1.Codec H1.SimpleHead H1.CodecProofs
-  H1.CodecSegProofs H1.Gate H1.GateProofs H1.ChunkedSound H1.GateExec H1.GateExecProofs H1.GateSegProofs.
+  H1.CodecSegProofs H1.Gate H1.GateProofs H1.ChunkedSound H1.GateExec H1.GateExecProofs H1.GateSegProofs
+  Gen.ChunkedClasses H1.ChunkedGenProofs.
 
 (* ===== 1. segmentation independence of the body decoders (unbounded) ======================= *)
 
@@ -130,6 +131,16 @@ Proof.
     destruct (sz * 16 + v <=? u64_max) eqn:E2; [|lia].
     apply IH; try assumption; [right; reflexivity|lia].
 Qed.
+
+(* ===== 3b. the byte classes are those of the source ========================================== *)
+
+(* The one-byte step of the model equals the interpretation of the arm tables that
+   tools/extract_consts.py regenerates from the `match byte!(rdr)` arms of chunked.rs on every
+   run (Gen/ChunkedClasses.v: byte ranges, guards, next state / Err / hex-digit formula, and the
+   dispatch of ChunkedState::step), for every state, size and byte value.  A changed byte class
+   in the Rust source changes the table and breaks this obligation. *)
+Theorem C01_cstep_matches_generated : forall s sz b, b < 256 -> cstep s sz b = interp_arms s sz b.
+Proof. exact cstep_matches_generated. Qed.
 
 (* ===== 4. malformed chunk syntax is an error, and an error is the same for every continuation *)
 Theorem C01_bad_chunk_syntax_rejected : forall sz b,
